@@ -380,6 +380,11 @@ def fold(mod, pid: str, tier: str, seed: int, results: list[dict], wall: float) 
     with open(os.path.join(evp, f"{pid}.json"), "w") as f:
         json.dump(ev, f, indent=1, default=str)
         f.write("\n")
+    if tier == "thorough":      # keep the deepest exploration next to the latest run (the latter is rewritten by every quick run)
+        os.makedirs(os.path.join(evp, "thorough"), exist_ok=True)
+        with open(os.path.join(evp, "thorough", f"{pid}.json"), "w") as f:
+            json.dump(ev, f, indent=1, default=str)
+            f.write("\n")
 
     # ---- report ------------------------------------------------------------------------------
     print(f"[{pid}] tier={tier} seed={seed} cases={evaluations} distinct_nontrivial={distinct} "
